@@ -9,8 +9,28 @@ SHM_ERR = {0: 'SyscallError', 1: 'SegmentNotInitialized', 2: 'SegmentMalformed',
 STATUS = {0: 'Unknown', 1: 'Synchronized', 2: 'FreeRunning'}
 
 
+_PRIMS = [None, set()]
+
+
 def _no_shm(b):
-    return b.crate.name == common.SHM
+    """the shm crate's primitives stay opaque: taking a snapshot, evaluating a record at the current time, opening the
+    segment -- and whatever they call. A convenience the shm crate offers on top of them (`reader.read_bound()` =
+    snapshot()? then now()) is looked through, so that the tables still name the two primitives."""
+    if b.crate.name != common.SHM:
+        return False
+    fb = _PRIMS[0]
+    if fb is None:
+        return True
+    if not _PRIMS[1]:
+        prims = [x for x in fb.bodies(common.SHM) if x.defkind != 'Closure' and (
+            (x.name == 'snapshot' and (x.impl_self or '').endswith('ShmReader')) or
+            (x.name == 'now' and (x.impl_self or '').endswith('ClockErrorBound')) or
+            (x.name == 'new' and (x.impl_self or '').endswith('ShmReader')))]
+        _PRIMS[1] = {x.path for x in prims}
+    if b.path in _PRIMS[1]:
+        return True
+    # a wrapper: reaches a primitive and is not reached from one
+    return not common.reaches_call(fb, b, lambda n: n in _PRIMS[1])
 
 
 def call_of(v):
@@ -148,6 +168,8 @@ class Wrapper:
 
 
 def load(fb, chk, rule):
+    if _PRIMS[0] is not fb:
+        _PRIMS[0], _PRIMS[1] = fb, set()
     rust = [b for b in fb.find(crate=common.CLIENT, name='now') if (b.impl_self or '').endswith('ClockBoundClient')]
     cee = [b for b in fb.find(crate=common.FFI, name='clockbound_now')]
     out = {}
